@@ -722,7 +722,9 @@ impl Session {
 
     /// Returns the `(epoch, tx_id)` to stamp on a version this session creates.
     ///
-    /// Inside a transaction the version stays pending until commit.
+    /// Inside a transaction the version stays pending until commit; outside, the
+    /// write commits on its own in a fresh epoch, so that transactions which began
+    /// earlier do not see it.
     fn get_write_context(&self) -> (EpochId, TxId) {
         if let Some(tx_id) = self.current_tx {
             let start = self
@@ -731,7 +733,9 @@ impl Session {
                 .unwrap_or_else(|| self.tx_manager.current_epoch());
             (self.store.uncommitted_stamp(start), tx_id)
         } else {
-            (self.tx_manager.current_epoch(), TxId::SYSTEM)
+            let epoch = self.tx_manager.advance_epoch();
+            self.store.sync_epoch(epoch);
+            (epoch, TxId::SYSTEM)
         }
     }
 
